@@ -489,10 +489,10 @@ func init() {
 						if r.P.CalleeFunc(fi, c) == fn {
 							return true
 						}
-						if lit, ok := ast.Unparen(c.Fun).(*ast.FuncLit); ok && depth < 2 {
+						if body := calleeBody(r.P, fi, c); body != nil && depth < 2 {
 							okAll, n := true, 0
-							inspect(lit.Body, func(m ast.Node) bool {
-								if inner, ok := m.(*ast.FuncLit); ok && inner != lit {
+							ast.Inspect(body, func(m ast.Node) bool {
+								if _, ok := m.(*ast.FuncLit); ok {
 									return false
 								}
 								if ret, ok := m.(*ast.ReturnStmt); ok && len(ret.Results) == 1 {
@@ -506,6 +506,10 @@ func init() {
 							return okAll && n > 0
 						}
 						return false
+					}
+					// a parameter of an extracted helper stands for the argument at its only call site
+					if d := derefParam(fi, e); d != nil && depth < 3 {
+						return allDefsCall(d, fn, depth+1)
 					}
 					obj := prog.IdentObj(fi, e)
 					if obj == nil {
@@ -529,10 +533,10 @@ func init() {
 								good := false
 								if len(as.Rhs) == 1 && depth < 2 {
 									if c, ok := ast.Unparen(as.Rhs[0]).(*ast.CallExpr); ok {
-										if lit, ok := ast.Unparen(c.Fun).(*ast.FuncLit); ok {
+										if body := calleeBody(r.P, fi, c); body != nil {
 											nRet, all := 0, true
-											ast.Inspect(lit.Body, func(q ast.Node) bool {
-												if inner, ok := q.(*ast.FuncLit); ok && inner != lit {
+											ast.Inspect(body, func(q ast.Node) bool {
+												if _, ok := q.(*ast.FuncLit); ok {
 													return false
 												}
 												if ret, ok := q.(*ast.ReturnStmt); ok && len(ret.Results) == len(as.Lhs) {
@@ -572,11 +576,14 @@ func init() {
 			}
 			// every reserved number is filled: after Reserve every path of flush reaches the goroutine that
 			// calls buffer.Add, and inside that goroutine every path calls buffer.Add (Drain stops at a gap forever)
-			var goLit *ast.FuncLit
+			var goLit ast.Node // the literal, or the declaration of an extracted helper, run by `go`
+			var goFn *types.Func
 			inspect(fl.Decl.Body, func(nd ast.Node) bool {
 				if gs, ok := nd.(*ast.GoStmt); ok {
 					if lit, ok := gs.Call.Fun.(*ast.FuncLit); ok && r.exprCalls(fi, lit.Body, ad.Obj) {
 						goLit = lit
+					} else if hf := r.P.FuncInfoOf(r.P.CalleeFunc(fi, gs.Call)); isNewHelper(r.P, hf) && r.exprCalls(fi, hf.Decl.Body, ad.Obj) {
+						goLit, goFn = hf.Decl, hf.Obj
 					}
 				}
 				return true
@@ -620,9 +627,12 @@ func init() {
 						if fn, _ := ev.Callee.(*types.Func); fn == reserveFn {
 							s.A = 1
 							return []pathsim.State{s}
+						} else if ev.Go && goFn != nil && fn != nil && fn.Origin() == goFn.Origin() && s.A == 1 {
+							s.A = 2
+							return []pathsim.State{s}
 						}
 					case pathsim.EvFuncLit:
-						if ev.Lit == goLit && s.A == 1 {
+						if ast.Node(ev.Lit) == goLit && s.A == 1 {
 							s.A = 2
 							return []pathsim.State{s}
 						}
